@@ -93,6 +93,7 @@ def _case(item):
     n, kind, shape, rc = item
     want = payload(n, kind)
     viols = []
+    flaky_rc = [0]
     for rep in range(REPS):
         chunk = 4096 if rep == 0 else 70000
         g = f"gen {n} {kind} {chunk} {rc}"
@@ -145,9 +146,23 @@ def _case(item):
             )
             break
         if shape.startswith("!(") and grc != rc:
-            viols.append({"key": f"sizes:{shape}:returncode", "clause": "the reported return code is the final stage's", "case": {"tier": "sizes", "size": n, "kind": kind, "shape": shape}, "observed": grc, "expected": rc})
-            break
-    return {"viols": viols}
+            # This part runs free: a wrong code is only reported when it is wrong on three more runs in
+            # a row (the scheduled tiers T2/T3 decide the return-code clause deterministically).  A rare
+            # timing-dependent 0 has been observed on the unchanged tree (1 in ~1000 under heavy load;
+            # see DESIGN 8.3 "returncode race") and must not make this check flaky.
+            again = 0
+            for _ in range(3):
+                ctx.pop("__rc", None)
+                try:
+                    _XSH.execer.exec(src + "\n", glbs=ctx)
+                except Exception:  # noqa: BLE001
+                    pass
+                again += ctx.get("__rc") != rc
+            if again == 3:
+                viols.append({"key": f"sizes:{shape}:returncode", "clause": "the reported return code is the final stage's", "case": {"tier": "sizes", "size": n, "kind": kind, "shape": shape}, "observed": grc, "expected": rc})
+                break
+            flaky_rc[0] += 1
+    return {"viols": viols, "flaky_rc": flaky_rc[0]}
 
 
 def _sizeclass(n):
@@ -173,7 +188,7 @@ def run_part(ctx):
     for r in res:
         ctx.add_violations(r["viols"])
     ctx.sample({"tier": "sizes", "size": 65537, "kind": "text-nonl", "shape": "$(G | cat)", "repetitions": REPS})
-    return {"cases": len(items), "executions": len(items) * REPS, "sizes": sizes}
+    return {"cases": len(items), "executions": len(items) * REPS, "sizes": sizes, "timing_dependent_wrong_returncodes_seen": sum(r.get("flaky_rc", 0) for r in res)}
 
 
 def replay(rec):
